@@ -207,6 +207,24 @@ CLAIMED = {
        "and the operating system are not modelled; the three #[return_type] overrides (split, chars, bytes) are claims about Rust bodies "
        "and are covered by the call stream only.",
   technique="Lean 4 proof over regenerated signature tables and integer helpers + call correspondence with doc oracle and fs/stdin fault states", ref="DESIGN.md §6 C18"),
+ "C16": dict(
+  text="Lean 4 theorems over a model in which every assignment (plain and each compound op=) is ONE atomic step on the store, as "
+       "assign::exec / try_exec perform it under a single write guard: for ALL schedules - every complete run applies a permutation of all "
+       "threads' operations, each exactly once (final_store_of_complete_run); when the operations commute pairwise the final store is "
+       "the same for every schedule and equals running the threads one after another (schedule_independent; += -= *= &= |= ^= commute "
+       "with themselves, += with -=, operations on different cells always; += and *= proved NOT to commute); N concurrent `c += d` add "
+       "exactly the sum (increments_exact); a thread whose cells no other thread touches sees under every schedule exactly what it sees "
+       "alone, errors included (private_thread_sequential); in the refinement with explicit acquire / release steps every reachable "
+       "unfinished configuration has an enabled thread (no_deadlock). The atomic-step assumption is tied to the source on every run: "
+       "Gen.LockShape (regenerated: both assign functions take one write guard and read and store through it; the complete list of "
+       "lock acquisitions, lock-like calls and unsafe blocks of the crate) and Gen.assignTable are fixed by theorems lock_shape and "
+       "assign_table. Real threads sample the implementation: counters (final value and returned values vs. model / closed form), "
+       "mixed operators on shared cells (every observed outcome must be in the model's set over all interleavings), private cells, "
+       "one parsed Code run from 8 threads, with a deadlock watchdog.",
+  note="Lean kernel; Rust's RwLock / Arc / thread primitives and the OS scheduler are trusted (the implementation's schedules are sampled "
+       "under a start barrier on 16 cores, not enumerated); the translator's reading of assign.rs; memory safety is rustc's (no unsafe in the "
+       "crate, checked by Gen.LockShape).",
+  technique="Lean 4 proof over an atomic-step concurrency model + lock-shape translator + real-thread correspondence against all interleavings of the model", ref="DESIGN.md §6 C16"),
 }
 NOT_YET = "machinery for this property is not built yet in this round (planned, see DESIGN.md §6)"
 
